@@ -317,6 +317,9 @@ func faults(c *vf.Ctx, m mode) {
 	// (a) every single-bit flip of the first packet, for first-packet length x continuation
 	firsts := []int{1, 20, 300}
 	conts := [][]int{{}, {20}, {300, 1}}
+	if c.Thorough {
+		firsts = []int{1, 2, 7, 11, 20, 33, 300, 1100}
+	}
 	for _, f := range firsts {
 		for ci, cont := range conts {
 			s := mk(seqs[ci%2], append([]int{f}, cont...)...)
@@ -381,7 +384,11 @@ func faults(c *vf.Ctx, m mode) {
 
 	// (f) every arrangement of the packets: all index sequences of length 0..n+1 over the n
 	// original packets (contains every drop, duplication, permutation and their mixtures)
-	for i, lens := range [][]int{{20, 20, 20, 20}, {1, 20, 300, 20}, {20, 20, 20}, {300, 1, 20}, {20, 1}} {
+	arrStreams := [][]int{{20, 20, 20, 20}, {1, 20, 300, 20}, {20, 20, 20}, {300, 1, 20}, {20, 1}}
+	if c.Thorough {
+		arrStreams = append(arrStreams, []int{20, 20, 20, 20, 20}, []int{33, 1, 300, 20, 33})
+	}
+	for i, lens := range arrStreams {
 		s := mk(seqs[i%2], lens...)
 		if s == nil {
 			return
@@ -694,7 +701,7 @@ func totality(c *vf.Ctx, m mode, phase int) bool {
 }
 
 func run(c *vf.Ctx) {
-	c.Rule("part 1, every authenticated cipher x MAC pair: real-writer streams of 1..4 packets (payload lengths from {1,20,300}) x {every single-bit flip of the first packet (9 stream shapes) and of every packet of an equal-length stream, " +
+	c.Rule("part 1, every authenticated cipher x MAC pair: real-writer streams of 1..4 packets (payload lengths from {1,20,300}; thorough: first packet {1,2,7,11,20,33,300,1100} and 5-packet arrangements) x {every single-bit flip of the first packet (9 stream shapes) and of every packet of an equal-length stream, " +
 		"every byte complemented/zeroed, every pair of bit flips in the 5 header bytes, every truncation point, every arrangement (index sequences of length 0..n+1 over n<=4 packets: all drops, duplications, reorders), 6 injected blobs at every packet boundary}; " +
 		"part 2, every mode incl. none: all 1-byte streams + all streams of <=4 bytes over {00,01,7f,80,ff}; model-sealed AUTHENTIC packets with every padding_length 0..255 x packet_length {0..33} and boundary padding_lengths (all 256 in thorough) x packet_length {34..44,60,124,252..300}; authentic complete packets with packet_length maxPacket+{1,2,4,8,12,16,28,32}, 2*maxPacket; " +
 		"38 boundary length fields (0..2^32-1) x every padding_length (boundary values for lengths > 33 in quick) with short body / prefix only / endless stream. non-trivial = distinct (mode, fault family, stream shape) actually executed on the real reader; " +
